@@ -11,7 +11,7 @@ import sys
 
 from checks import common
 
-MODULES = ["c12"]
+MODULES = ["c12", "c13", "c14"]
 
 
 def _run(args):
